@@ -48,11 +48,27 @@ def module_attr(I, v: VModule, attr):
     return VModule(full)
 
 
+def enc_pred(run, t):
+    """`the string t has no lone surrogate` as ONE Boolean constant per string term (not an uninterpreted predicate over strings: z3's sequence solver
+    is unstable when UFs take string arguments); congruence is only needed, and provided, for syntactically identical terms"""
+    t = E.simp(t)
+    if z3.is_string_value(t):
+        return z3.BoolVal(True)
+    if not hasattr(run, "enc_cache"):
+        run.enc_cache = {}
+    key = t.get_id()
+    if key not in run.enc_cache:
+        b = z3.Bool(run.fresh_name("encodable!of"))
+        run.enc_cache[key] = (b, t)
+        run.inputs.setdefault(str(b), b)
+    return run.enc_cache[key][0]
+
+
 def encodable_closure(run, t, depth=0):
     """instances of: a string built from encodable strings by case mapping, stripping, joining, slicing, concatenation or replacement is
     encodable (these operations never create a lone surrogate that was not in an argument -- slicing works on code points)"""
     S_ = z3.StringSort()
-    enc = _fn("encodable", S_, z3.BoolSort())
+    enc = lambda x: enc_pred(run, x)
     if depth > 6 or not z3.is_app(t) or t.sort() != S_:
         return
     if z3.is_string_value(t):
@@ -560,8 +576,7 @@ def str_method(I, s, name, args, kwargs):
         if key not in run.strfn_cache:
             c = z3.String(run.fresh_name(f"{name}!of"))
             run.strfn_cache[key] = (c, s.t)
-            enc = _fn("encodable", S, z3.BoolSort())
-            run.assume(z3.Implies(enc(s.t), enc(c)), persist=True)
+            run.assume(z3.Implies(enc_pred(run, s.t), enc_pred(run, c)), persist=True)
         return VStr(run.strfn_cache[key][0], s.tags)
     if name == "startswith":
         a = args[0]
@@ -581,7 +596,7 @@ def str_method(I, s, name, args, kwargs):
                                                                                   "xmlcharrefreplace", "surrogateescape", "namereplace"):
                 # with an error handler the utf-8 encoder is total on str
                 return VAny(_fn("encode_" + e_.as_string(), S, AnySort)(s.t), "bytes")
-        ok = _fn("encodable", S, z3.BoolSort())(s.t)
+        ok = enc_pred(run, s.t)
         encodable_closure(run, s.t)
         if not run.decide(ok, f"encodable({s.t})"[:60]):
             raise E.PyExc(VExc("UnicodeEncodeError"), "str.encode")
